@@ -190,6 +190,25 @@ func TestObjects(t *testing.T) {
 				}
 			}
 			evid.Count("point." + p.stateClass())
+			if len(w.Contracts) > 0 {
+				evid.Count("point.feature.contract_deployed")
+			}
+			{
+				st := vr.ReadState()
+				flips, invites, pools, delegated := false, false, false, false
+				for _, a := range w.Actors {
+					id := st.State.GetIdentity(a.Addr)
+					flips = flips || len(id.Flips) > 0
+					invites = invites || id.State == state.Invite || len(id.Invitees) > 0
+					pools = pools || st.ValidatorsCache.IsPool(a.Addr)
+					delegated = delegated || id.Delegatee() != nil
+				}
+				for k, v := range map[string]bool{"flips": flips, "invitations": invites, "pools": pools, "delegations": delegated} {
+					if v {
+						evid.Count("point.feature." + k)
+					}
+				}
+			}
 			for i := 0; i < n; i++ {
 				evid.Eval()
 				switch c := pick(t, "objectClass", 20); {
@@ -211,6 +230,15 @@ func TestObjects(t *testing.T) {
 			}
 		}
 		opt.BetweenBlocks = func(h *sim.History) {
+			// make the features the validators look at likely to exist later on: contracts, flips, pools, invitations
+			if len(h.Blocks) < 4 {
+				for _, typ := range []types.TxType{types.DeployContractTx, types.SubmitFlipTx, types.DelegateTx, types.InviteTx} {
+					tx, _ := h.W.GenTx(t, h.W.Replicas[0], []types.TxType{typ})
+					for _, r := range h.W.Replicas {
+						r.Pool.AddExternalTxs(validation.MempoolTx, tx)
+					}
+				}
+			}
 			if rapid.IntRange(0, 3).Draw(t, "evalHere") == 0 {
 				evalAt(h.W, rapid.IntRange(3, 10).Draw(t, "nObjects"), false)
 			}
